@@ -78,6 +78,11 @@ CHECKS = {
         note="Coq kernel + vm_compute; models WriteXl.v + reader models; H_openpyxl_store; xlsxwriter backend not installed and not covered; the table-level round-trip statement rests on the shared layout lemmas (see Properties).",
         design="DESIGN.md section 5/C09",
     ),
+    "C10": dict(
+        text="Theorems: a table given as a cell matrix with header texts parses, from the row-wise grid with arbitrary noise (cells after the name / destinations / units / data rows, blanks around names and units, comment cells after a blank cell on the name row), to a table that mentions none of the noise; the transposed grid with other noise (blank trailing cells per line, other blanks) parses to the same table apart from the flag; and a table block ends identically at end of input, before a blank line and before any other block start. The reader model is run on every rewritten grid next to the implementation, and the oracle compares plain against rewritten parse (parse_blocks and read_csv).",
+        note="Coq kernel + vm_compute; models ParseTable.v, Segment.v, Reader.v; cell parsers float()/to_datetime as section variables tied by the correspondence; hypothesis: no entirely blank data row.",
+        design="DESIGN.md section 5/C10",
+    ),
     "C16": dict(
         text="Theorems over the LIFO work-list with visited set for abstract resolution / enqueued items / yielded blocks (hence for every loader composition, file tree and include graph): termination with an explicit fuel bound, each location read at most once, completed loads read exactly the reachable locations, the output is per location its blocks together and in order, every reported repetition names a read location. The file-system instantiation (folder matching, include resolution, path model) is run against load_files on real directory trees with every open()/listdir observed through an audit hook; an in-memory 'mem:' protocol loader exercises prefix dispatch.",
         note="Coq kernel + vm_compute; models Load.v, Path.v; H_path (pathlib on POSIX) tied by the correspondence; directory order observed; protocol dispatch covered by the oracle only.",
